@@ -169,6 +169,7 @@ class Ctx:
             cons = self.assumptions + self.path_formulas() + [f for _, f in ax]
         for h in QUERY_HOOKS:
             cons = cons + h(cons + extra)
+        cons, extra = self._without_divisions(cons, extra)
         # portfolio: the SMT core (SimpleSolver) notices propositional / linear conflicts at once where
         # nlsat's CAD can time out on them; the default solver (nlsat tactic) decides the genuinely
         # non-linear queries.  A fresh solver per query (incremental use makes NRA queries unknown).
@@ -191,6 +192,42 @@ class Ctx:
         if r == z3.unknown:
             self.stats.unknown += 1
         return str(r), m
+
+    def _without_divisions(self, cons, extra):
+        """x / d  ->  x * w_d  with  d * w_d == 1, for every denominator d that the path's own constraints
+        exclude from being zero (decided with '/' abstracted to an uninterpreted function: an over-approximation,
+        so 'unsat' there is unsat).  Equisatisfiable, and nlsat decides the result far faster than terms with
+        division.  Other divisions stay as they are."""
+        if not any(_has_div(f) for f in cons) and not any(_has_div(f) for f in extra):
+            return cons, extra
+        dens = {}
+        for f in list(cons) + list(extra):
+            for d in _denominators(f):
+                dens.setdefault(d.get_id(), d)
+        ok = self.memo.setdefault("nonzero_den", {})
+        todo = [d for k, d in dens.items() if k not in ok]
+        if todo:
+            base = [_div_abstract(f) for f in self.assumptions + self.path_formulas()]
+            for d in todo:
+                r = z3.unknown
+                for mk_solver, budget in ((z3.SimpleSolver, 300), (z3.Solver, 3000)):
+                    sv = mk_solver()
+                    sv.set("timeout", budget)
+                    for c in base:
+                        sv.add(c)
+                    sv.add(d == 0)
+                    r = sv.check()
+                    if r != z3.unknown:
+                        break
+                if r == z3.unsat:
+                    ok[d.get_id()] = d          # stays true: constraints only grow along a path
+        good = {k for k in dens if k in ok}
+        if not good:
+            return cons, extra
+        inv = {}
+        cons2 = [_div_replace(f, good, inv) for f in cons]
+        extra2 = [_div_replace(f, good, inv) for f in extra]
+        return cons2 + [d * w == 1 for d, w in inv.values()], extra2
 
     # -- decisions ----------------------------------------------------------
     def decide(self, alts, what="branch"):
@@ -251,6 +288,101 @@ class Ctx:
 
 class InfeasiblePath(Exception):
     pass
+
+
+_DIV_MEMO = {}
+_DIVUF = z3.Function("div!uf", z3.RealSort(), z3.RealSort(), z3.RealSort())
+
+
+def _div_info(t):
+    """(has non-constant division, tuple of division-free denominators) of a term; memoised by ast id"""
+    key = t.get_id()
+    hit = _DIV_MEMO.get(key)
+    if hit is not None and hit[0].eq(t):
+        return hit[1], hit[2]
+    has, dens = False, []
+    if z3.is_app(t) and t.num_args():
+        for c in t.children():
+            h, ds = _div_info(c)
+            has = has or h
+            dens.extend(ds)
+        if t.decl().kind() == z3.Z3_OP_DIV and not z3.is_rational_value(t.arg(1)):
+            has = True
+            if not _div_info(t.arg(1))[0]:
+                dens.append(t.arg(1))
+    if len(_DIV_MEMO) > 400000:
+        _DIV_MEMO.clear()
+    seen, uniq = set(), []
+    for d in dens:
+        if d.get_id() not in seen:
+            seen.add(d.get_id())
+            uniq.append(d)
+    _DIV_MEMO[key] = (t, has, tuple(uniq))
+    return has, tuple(uniq)
+
+
+def _has_div(t):
+    return _div_info(t)[0]
+
+
+def _denominators(t):
+    return _div_info(t)[1]
+
+
+def _div_abstract(t, memo=None):
+    if not _has_div(t):
+        return t
+    memo = {} if memo is None else memo
+    key = t.get_id()
+    if key in memo:
+        return memo[key]
+    ch = [_div_abstract(c, memo) for c in t.children()]
+    if t.decl().kind() == z3.Z3_OP_DIV and not z3.is_rational_value(t.arg(1)):
+        out = _DIVUF(ch[0], ch[1])
+    else:
+        out = t.decl()(*ch)
+    memo[key] = out
+    return out
+
+
+_DIV_REPL = {}
+
+
+def _div_replace(t, good, inv):
+    if not _has_div(t):
+        return t
+    key = (t.get_id(), tuple(sorted(good)))
+    hit = _DIV_REPL.get(key)
+    if hit is not None and hit[0].eq(t):
+        for k, dw in hit[2].items():
+            inv.setdefault(k, dw)
+        return hit[1]
+    used = {}
+    out = _div_replace_rec(t, good, used, {})
+    if len(_DIV_REPL) > 200000:
+        _DIV_REPL.clear()
+    _DIV_REPL[key] = (t, out, used)
+    for k, dw in used.items():
+        inv.setdefault(k, dw)
+    return out
+
+
+def _div_replace_rec(t, good, used, memo):
+    if not _has_div(t):
+        return t
+    key = t.get_id()
+    if key in memo:
+        return memo[key]
+    ch = [_div_replace_rec(c, good, used, memo) for c in t.children()]
+    if t.decl().kind() == z3.Z3_OP_DIV and t.arg(1).get_id() in good:
+        d = t.arg(1)
+        if d.get_id() not in used:
+            used[d.get_id()] = (d, z3.Real("inv!den!%d" % d.get_id()))
+        out = ch[0] * used[d.get_id()][1]
+    else:
+        out = t.decl()(*ch)
+    memo[key] = out
+    return out
 
 
 def ctx():
